@@ -3,6 +3,7 @@ package main
 // Obligation bookkeeping, evidence files, known findings, vacuity floors.
 
 import (
+	"golang.org/x/tools/go/ssa"
 	"crypto/sha1"
 	"encoding/json"
 	"fmt"
@@ -384,4 +385,22 @@ func sanitize(s string) string {
 		}
 		return '_'
 	}, s)
+}
+
+// missingOrMoved reports a required construct that was not found where the
+// rule expects it: if it exists in a same-package helper reachable from the
+// anchored function the shape is unrecognised (UNDECIDED, no verdict); if it
+// exists nowhere the required action is gone and that is a violation.
+func (c *Ctx) missingOrMoved(rule, construct string, anchor *ssa.Function, pred func(ssa.Instruction) bool, what, consequence string) {
+	pos := "-"
+	if anchor != nil {
+		pos = c.P.Pos(anchor.Pos())
+		for _, f := range withAnon(anchor) {
+			if len(deepInstrs(f, 3, pred)) > 0 {
+				c.undecided(rule, construct, pos, what+" not found in the expected place but present in a helper: shape not recognised")
+				return
+			}
+		}
+	}
+	c.viol(rule, construct, pos, what+" is missing: "+consequence)
 }
